@@ -113,6 +113,8 @@ class TransformedHistogramMixin(abc.ABC):
         **kwargs,
     ):
         if not transformed:
+            if kwargs.pop("columns", False):
+                values = np.asarray(values).T  # Points are transformed row by row
             values = self.transform(values)
         super().fill_n(values=values, weights=weights, dropna=dropna, **kwargs)  # type: ignore
 
